@@ -354,7 +354,8 @@ func createUpstreamRequest(rw http.ResponseWriter, r *http.Request) (*http.Reque
 
 	// Remove hop-by-hop headers listed in the "Connection" header.
 	// See RFC 2616, section 14.10.
-	if c := outreq.Header.Get("Connection"); c != "" {
+	// (every Connection line, a message may carry several)
+	for _, c := range outreq.Header["Connection"] {
 		for _, f := range strings.Split(c, ",") {
 			if f = strings.TrimSpace(f); f != "" {
 				if !copiedHeaders {
